@@ -191,7 +191,7 @@ def run(chk):
         if saved is None:
             problems.append((si, "repl+save", "save failed: %r" % (outs[ci][-2:],)))
             continue
-        if saved != [l.strip() for l in lines]:
+        if [x.strip() for x in saved] != [l.strip() for l in lines]:
             problems.append((si, "repl+save", "save wrote %r, the successful inputs are %r" % (saved, lines)))
             continue
         # the REPL session itself (with failing lines in between) must end like the plain one
